@@ -113,18 +113,38 @@ Pool& GetPool(uint64_t batch_bytes)
 {
     static std::map<uint64_t, Pool> pools;
     Pool& p = pools[batch_bytes];
-    // LevelDB keeps every version of the 4 keys in its memtable and the cursor walks all of them: renew the DB now and then
-    if (!p.db || ++p.uses >= DB_REUSE) {
+    auto new_db = [&] {
         p.uses = 0;
         p.db.reset();
         p.db = std::make_unique<CCoinsViewDB>(DBParams{.path = "", .cache_bytes = 1 << 18, .memory_only = true}, CoinsViewOptions{.batch_write_bytes = batch_bytes});
         if (p.c[0]) p.c[0]->SetBackend(*p.db);
-    }
-    if (!p.c[0]) {
+    };
+    auto new_caches = [&] {
+        for (int i = 2; i >= 0; --i) p.c[i].reset();
         p.c[0] = std::make_unique<Probe>(p.db.get(), /*deterministic=*/true);
         p.c[1] = std::make_unique<Probe>(p.c[0].get(), /*deterministic=*/true);
         p.c[2] = std::make_unique<Probe>(p.c[1].get(), /*deterministic=*/true);
+    };
+    // LevelDB keeps every version of the 4 keys in its memtable and the cursor walks all of them: renew the DB now and then
+    if (!p.db || ++p.uses >= DB_REUSE) new_db();
+    if (!p.c[0]) new_caches();
+    // Bring the pooled objects back to the state of freshly constructed ones (caches empty with an unset best block, DB without coins) using the
+    // cache's own operations; whatever is not verifiably clean afterwards is REPLACED by a fresh object, so that every case starts from the same
+    // state whatever the code under test did in an earlier case (a case must be a pure function of its bytes, or failures would not replay).
+    for (auto& c : p.c) { auto guard{c->CreateResetGuard()}; }
+    bool any = false;
+    for (int op = 0; op < NOUT; ++op) any |= p.c[0]->SpendCoin(Outpoint(op));
+    if (any) {
+        uint256 h;
+        h.data()[0] = 0xcc; h.data()[31] = 0xb1;
+        p.c[0]->SetBestBlock(h);
+        p.c[0]->Flush(/*reallocate_cache=*/false);
     }
+    for (auto& c : p.c) { auto guard{c->CreateResetGuard()}; }
+    if (p.db->Cursor()->Valid()) new_db();
+    bool caches_clean = true;
+    for (auto& c : p.c) if (c->GetCacheSize() != 0 || c->GetDirtyCount() != 0 || c->CoinsUsage() != 0 || !c->Map().empty()) caches_clean = false;
+    if (!caches_clean) new_caches();
     return p;
 }
 
@@ -150,18 +170,7 @@ struct Sim {
     Sim(verif::Stats& st_, int nout_, uint64_t batch_bytes)
         : st(st_), nout(nout_), pool(GetPool(batch_bytes)), db(*pool.db)
     {
-        // bring the pooled objects to the state of freshly constructed ones: caches empty with an unset best block, DB without coins
-        for (auto& c : pool.c) { auto guard{c->CreateResetGuard()}; }
-        bool any = false;
-        for (int op = 0; op < NOUT; ++op) any |= pool.c[0]->SpendCoin(Outpoint(op));
-        if (any) {
-            pool.c[0]->SetBestBlock(NewHash());
-            pool.c[0]->Flush(/*reallocate_cache=*/false);
-        }
-        { auto guard{pool.c[0]->CreateResetGuard()}; }
-        m_db_best = db.GetBestBlock(); // whatever an earlier case left; only coins matter
-        for (auto& c : pool.c) VCHECK(c->GetCacheSize() == 0 && c->GetDirtyCount() == 0 && c->CoinsUsage() == 0, "c15.reset-empties", "pooled cache not empty at case start");
-        CheckDb(); // must be empty
+        m_db_best = db.GetBestBlock(); // whatever an earlier case left; only coins matter (GetPool guarantees an empty DB and empty caches)
         Push();
     }
 
